@@ -4,9 +4,24 @@ import os
 import stages, vlib
 
 
+def scn(i, seed, **kw):
+    s = {"case": "gsx%d" % i, "pull": False, "chunks": 24, "dupEvery": 0, "srcStore": False, "dstStore": False, "limits": [], "reqFin": False, "forcePause": False,
+         "pauseSide": "", "pauseAt": 0, "bounceSide": "", "bounceAt": 0, "restartSide": "", "restartAt": 0, "seed": seed * 1000 + i}
+    s.update(kw)
+    return s
+
+
 def gen(ctx, n, bounce_share=0.3):
-    out = []
-    for i in range(n):
+    # a fixed core (every run): plain, duplicates, limits + finalization, per-channel stores with a same-process restart in both directions, one bounce per side
+    out = [scn(0, ctx.seed, pull=False, chunks=12),
+           scn(1, ctx.seed, pull=True, chunks=16, dupEvery=4, srcStore=True),
+           scn(2, ctx.seed, pull=True, chunks=20, limits=[6000, 14000, 0], reqFin=True),
+           scn(3, ctx.seed, pull=True, chunks=30, dstStore=True, restartSide="I", restartAt=4),
+           scn(4, ctx.seed, pull=False, chunks=30, dstStore=True, srcStore=True, restartSide="I", restartAt=4),
+           scn(5, ctx.seed, pull=False, chunks=30, dstStore=True, restartSide="R", restartAt=5),
+           scn(6, ctx.seed, pull=False, chunks=30, bounceSide="I", bounceAt=8),
+           scn(7, ctx.seed, pull=True, chunks=30, bounceSide="R", bounceAt=8)]
+    for i in range(len(out), n):
         r = ctx.rng
         chunks = r.randint(4, 48)
         limits = []
@@ -16,19 +31,17 @@ def gen(ctx, n, bounce_share=0.3):
             cuts = sorted(r.sample(range(1500, max(1600, total)), min(k, max(1, (total - 1500) // 1100))))
             limits = cuts + [0]
         bounce = r.random() < bounce_share
-        s = {"case": "gsx%d" % i, "pull": r.random() < 0.5, "chunks": chunks, "dupEvery": r.choice([0, 0, 3, 5]),
-             "srcStore": r.random() < 0.4, "dstStore": r.random() < 0.4, "limits": limits, "reqFin": r.random() < 0.4, "forcePause": False,
-             "pauseSide": "" if bounce else r.choice(["", "", "I", "R"]), "pauseAt": r.randint(1, max(1, chunks // 2)),
-             "bounceSide": r.choice(["I", "R"]) if bounce else "", "bounceAt": r.randint(2, max(2, chunks // 2)), "seed": ctx.seed * 1000 + i,
-             "restartSide": "", "restartAt": 0}
+        s = scn(i, ctx.seed, pull=r.random() < 0.5, chunks=chunks, dupEvery=r.choice([0, 0, 3, 5]), srcStore=r.random() < 0.4, dstStore=r.random() < 0.4, limits=limits,
+                reqFin=r.random() < 0.4, pauseSide="" if bounce else r.choice(["", "", "I", "R"]), pauseAt=r.randint(1, max(1, chunks // 2)),
+                bounceSide=r.choice(["I", "R"]) if bounce else "", bounceAt=r.randint(2, max(2, chunks // 2)))
+        if bounce:
+            s["limits"], s["reqFin"] = [], False
+            s["chunks"] = max(s["chunks"], 24)
         if not bounce and r.random() < 0.3:      # same-process restart (no bounce), often with per-channel stores
             s["restartSide"], s["restartAt"] = r.choice(["I", "R"]), r.randint(1, max(1, chunks // 3))
             s["pauseSide"], s["limits"], s["reqFin"] = "", [], False
             s["dstStore"] = s["dstStore"] or r.random() < 0.6
             s["chunks"] = max(s["chunks"], 20)
-        if bounce:
-            s["limits"], s["reqFin"] = [], False
-            s["chunks"] = max(s["chunks"], 24)
         out.append(s)
     return out
 
@@ -128,7 +141,7 @@ def run(ctx):
                 "quiescence) are judged by C01Judge; non-trivial = scenario that completed on the initiator; distinct by (direction, stores, #limits, reqFin, pause side, bounce side)")
     ctx.assumptions += ["graphsync delivers what it reports; payload DAGs are sampled (unixfs files with duplicate chunks), not enumerated",
                         "wall-clock run: a scenario that does not quiesce within its budget is not a verdict (counted in evidence as not quiesced)"]
-    n = 14 if ctx.quick() else 150
+    n = 16 if ctx.quick() else 150
     scns = gen(ctx, n)
     cp = ctx.path("scn.ndjson")
     vlib.write_ndjson(cp, scns)
